@@ -159,13 +159,18 @@ Proof.
   clearbody trk pat len.
   destruct (read_mtm_pats (Z.to_nat pat) channels trk file p12) as [pats p13] eqn:EP.
   match type of H with match ?ls with _ => _ end = _ => destruct ls as [smps|] eqn:ES end; [|discriminate].
-  destruct (read_mtm_pats_spec _ _ _ _ _ _ _ ltac:(lia) ltac:(lia) Hb EP) as [Lpats Fpats].
+  assert (Htrk0 : 0 < trk) by lia. assert (Hchn0 : 0 <= channels <= 32) by lia.
+  destruct (read_mtm_pats_spec _ _ _ _ _ _ _ Htrk0 Hchn0 Hb EP) as [Lpats Fpats].
   destruct (load_smps_mtm_post _ _ _ _ ES) as [Lsmps Fsmps].
-  injection H as <-.
-  eexists channels, len, pat, trk, samples, ins, orders, pats, smps, _.
+  set (chans := map _ (seq 0 64)) in H.
+  assert (Lchans : zlen chans = 64) by (unfold chans, zlen; rewrite map_length, seq_length; reflexivity).
+  clearbody chans.
+  set (pad := repeat 0 256) in H. assert (Epad : pad = repeat 0 256) by reflexivity. clearbody pad.
+  injection H as <-. rewrite Epad.
+  exists channels, len, pat, trk, samples, ins, orders, pats, smps, chans.
   split; [reflexivity|].
   repeat (split; [first [assumption | lia]|]).
-  unfold zlen. rewrite map_length, seq_length. reflexivity.
+  exact Lchans.
 Qed.
 
 Theorem mtm_loader_establishes_post : forall file r,
